@@ -25,7 +25,7 @@ func init() {
 			{"PEER-CONSUMES", rulePeerConsumes},
 		},
 		Meta: eng.PropMeta{
-			Explanation: "Decides the structural side of 'exactly one notification per committed document commit, only for committed changes, in order': (EVENT-ONSUCCESS) every publication of an update event in the module sits inside a callback registered with the transaction's OnSuccess/OnSuccessAsync (one tabled exception re-announcing already committed heads); (EVENT-PAYLOAD) in save and applyDelete every document-level and collection-level AddDelta is followed, on every non-error path to the function's exit, by exactly one OnSuccess registration whose event carries the Cid and the block bytes returned by that same AddDelta; (CONFINEMENT) all bus commands pass the single commandChannel whose only receiver is the one handleChannel goroutine, which delivers in loop order; (BUS-BLOCKING) delivery to a subscriber is an unconditional blocking send — never a select with a default/timeout arm that could drop a notification; (SUB-CID) a subscription evaluates at the Cid and DocID of the received update event; (PEER-CONSUMES) the peer subscribes to update events and hands each to handleLog. (COMMIT-CALLBACKS) as in C05: success callbacks, which carry every update event, run only when the store commit returned nil.",
+			Explanation: "Decides the structural side of 'exactly one notification per committed document commit, only for committed changes, in order': (EVENT-ONSUCCESS) every publication of an update event in the module sits inside a callback registered with the transaction's OnSuccess/OnSuccessAsync (one tabled exception re-announcing already committed heads); (EVENT-PAYLOAD) in save and applyDelete every document-level and collection-level AddDelta is followed, on every non-error path to the function's exit, by exactly one OnSuccess registration whose event carries the Cid and the block bytes returned by that same AddDelta; (CONFINEMENT) all bus commands pass the single commandChannel whose only receiver is the one handleChannel goroutine, which delivers in loop order; (BUS-BLOCKING) delivery to a subscriber is an unconditional blocking send — never a select with a default/timeout arm that could drop a notification; (SUB-CID) a subscription evaluates at the Cid and DocID of the received update event; (PEER-CONSUMES) the peer subscribes to update events and hands each to handleLog. (COMMIT-CALLBACKS) as in C05: success callbacks, which carry every update event, run only when the store commit returned nil. (EVENT-COLLECTION-ID) as in C19.",
 			NotDecided:  "delivery under back-pressure and shutdown, exactly-one results of GraphQL subscriptions against their filter, ordering across concurrent callers (defined by commit completion order at run time)",
 		},
 	})
